@@ -31,7 +31,7 @@ include $(C20_HD)../Makefile
 G     := $(B)/c20
 IFC   := $(REPO)/interfaces
 M4    ?= m4
-PERL  ?= perl
+PERL  ?= /usr/bin/perl
 M4FLAGS := --prefix-builtin -I$(IFC) -I$(IFC)/C -I$(IFC)
 
 # all the interfaced domains configured in /repo (every one is generated)
@@ -88,17 +88,27 @@ $(G)/ppl_c_implementation_domains.hh $(patsubst %,$(G)/ppl_c_%.hh,$(C20_ALL_DOMA
 $(patsubst %,$(G)/ppl_c_%.cc,$(C20_ALL_DOMAINS)): $(G)/cc.stamp ;
 
 # ppl_c_version.h: what configure does with ppl_c_version.h.in, values taken from src/version.hh
-$(G)/ppl_c_version.h: $(IFC)/C/ppl_c_version.h.in $(REPO)/src/version.hh $(REPO)/ppl-config.h
+$(G)/ppl_c_version.h: $(IFC)/C/ppl_c_version.h.in $(REPO)/src/version.hh $(C20_HD)c20_build.mk
 	@mkdir -p $(G)
 	@v() { sed -n "s/^#define $$1 \(.*\)$$/\1/p" $(REPO)/src/version.hh | head -1; }; \
-	 ver=`sed -n 's/^#define PPL_VERSION "\(.*\)"$$/\1/p' $(REPO)/ppl-config.h | head -1`; \
+	 ver=`v PPL_VERSION | tr -d '"'`; \
 	 sed -e "s/@VERSION@/$$ver/" -e "s/@PPL_VERSION_MAJOR@/`v PPL_VERSION_MAJOR`/" -e "s/@PPL_VERSION_MINOR@/`v PPL_VERSION_MINOR`/" \
 	     -e "s/@PPL_VERSION_REVISION@/`v PPL_VERSION_REVISION`/" -e "s/@PPL_VERSION_BETA@/`v PPL_VERSION_BETA`/" $< > $@.tmp
 	@if cmp -s $@.tmp $@; then rm $@.tmp; else mv $@.tmp $@; fi
 
 # ppl_c.h: ppl_c_header.h with ppl_c_version.h and ppl_c_domains.h inlined by utils/build_header
-$(G)/ppl_c.h: $(IFC)/C/ppl_c_header.h $(G)/ppl_c_version.h $(G)/ppl_c_domains.h $(REPO)/utils/build_header.in
-	$(PERL) $(REPO)/utils/build_header.in -I $(G) -I $(REPO)/src $(IFC)/C/ppl_c_header.h > $@.tmp
+$(G)/build_header: $(REPO)/utils/build_header.in
+	@mkdir -p $(G)
+	sed -e 's,@PERL@,$(PERL),g' -e 's,@generated_automatically@,generated from build_header.in,' $< > $@
+
+# (build_header searches the directory of its input first: run it on a private copy, so that
+#  the in-tree /repo/interfaces/C/ppl_c_version.h and ppl_c_domains.h are never picked up)
+$(G)/ppl_c_header.h: $(IFC)/C/ppl_c_header.h
+	@mkdir -p $(G)
+	cp -f $< $@
+
+$(G)/ppl_c.h: $(G)/ppl_c_header.h $(G)/ppl_c_version.h $(G)/ppl_c_domains.h $(G)/build_header
+	$(PERL) $(G)/build_header -I $(G) -I $(REPO)/src $(G)/ppl_c_header.h > $@.tmp
 	@if cmp -s $@.tmp $@; then rm $@.tmp; touch -c $@; else mv $@.tmp $@; fi
 
 # private copies of the hand-written sources (see the note on quoted includes above)
